@@ -85,10 +85,18 @@ type Judge struct {
 	// id never returns), as reports of real NodeHosts do. With arbitrary random reports an id can leave the view and come
 	// back, so an entry recorded while it was away names a member again: outside what C11 quantifies over.
 	ConsistentHistory bool
+	// Also: findings (by signature) that are raised under further properties as well, where the caller's setting makes them
+	// a failing input of those too
+	Also map[string][]string
 }
 
 func (j *Judge) fail(prop, clause, sig, what string) {
 	j.Run.Violate(hx.Violation{Property: prop, Clause: clause, Signature: sig, What: what, Seq: j.Seq, OpIndex: j.Idx, Ops: j.Ops})
+	for _, p := range j.Also[sig] {
+		if p != prop {
+			j.Run.Violate(hx.Violation{Property: p, Clause: clause, Signature: sig, What: what, Seq: j.Seq, OpIndex: j.Idx, Ops: j.Ops})
+		}
+	}
 }
 
 func eqU(a, b []uint64) bool {
